@@ -521,6 +521,11 @@ func (h *harness) genCase(r *rng, name, stream string, nops int) *Case {
 				o := Op{Kind: "scan"}
 				for j, n := 0, r.intn(8); j < n; j++ {
 					u := SubOp{At: r.intn(len(c.Pool) + 2), K: key()}
+					if r.chance(15) {
+						u.Kind = "compact"
+						o.Sub = append(o.Sub, u)
+						continue
+					}
 					if r.chance(65) {
 						u.Kind = "put"
 						u.V = val(u.K)
@@ -977,9 +982,15 @@ func (s *session) scan(o Op) {
 	n := 0
 	for {
 		for len(sub) > 0 && sub[0].At <= n {
-			s.userOp(sub[0])
+			if sub[0].Kind == "compact" {
+				// a whole compaction between two Next calls (segments the scan has queued items of may go away)
+				s.compact(Op{Kind: "compact"})
+				h.stat("scan.compact")
+			} else {
+				s.userOp(sub[0])
+				h.stat("scan.userop")
+			}
 			sub = sub[1:]
-			h.stat("scan.userop")
 		}
 		k, v, err := it.Next()
 		if err == pogreb.ErrIterationDone {
